@@ -137,7 +137,7 @@ theorem step_qsub (cfg : Cfg) (st : St) (e : Ev) :
       · rename_i hm
         simp only [doSend] at hr
         have := (checkSendBatch_q cfg _).sub r hr
-        simp only [List.mem_append, List.mem_singleton] at this
+        simp only [enqueue, List.mem_append, List.mem_singleton] at this
         rcases this with h | h
         · exact Or.inl h
         · right; subst h
